@@ -439,6 +439,9 @@ template<class T> struct Runner
       const bool unb = op == "MeanW" ? false : k[0] != 0;
       const bool nz = (op == "MeanW" ? k[0] : k[1]) != 0;
       const bool pre = (op == "MeanW" ? k[1] : k[2]) != 0;
+      const long eoff = k.back(); // exponent of the power-of-two offset added to the data (0: none)
+      SKIP_UNLESS(eoff == 0 || (eoff >= 20 && eoff <= 40));
+      const double coff = eoff == 0 ? 0.0 : std::ldexp(1.0, static_cast<int>(eoff));
       long double W = 0, W2 = 0, wmax = 0;
       for (const auto& e : wr)
       {
@@ -450,11 +453,13 @@ template<class T> struct Runner
       SKIP_UNLESS(ok && (W == 1 || W == 2 || W == 4 || W == 8) && (nz || pre) && (!unb || W * W - W2 > 0));
       FIT_UNLESS(4096.0L * n * (2 * W * ax + 1) * (2 * W * amax(yr) + 1) * wmax <= 1e9L);
       std::vector<double> dx(x.begin(), x.end()), dy(yr.begin(), yr.end()), dw;
+      for (auto& e : dx) e += coff;
+      for (auto& e : dy) e += coff;
       for (const auto& e : wr) dw.push_back(pre ? static_cast<double>(e) / static_cast<double>(W) : static_cast<double>(e));
       if (op == "MeanW")
         oc = run([&] {
           double m = VT::template mean<double, double>(dx, dw, nz);
-          r = Arr().add(dyad(m, 4)).add(m != m ? 1 : 0).j();
+          r = Arr().add(dyad(m - coff, 4)).add(m != m ? 1 : 0).j();
         });
       else if (op == "CovW")
         oc = run([&] {
@@ -467,6 +472,55 @@ template<class T> struct Runner
           double cv = VT::template cov<double, double>(dx, dx, dw, unb, nz);
           double sd = VT::template sd<double, double>(dx, dw, unb, nz);
           r = Arr().add(dyad(va, 12)).add(va != va ? 1 : 0).add(va < 0 ? 1 : 0).add(std::memcmp(&va, &cv, sizeof va) == 0 ? 1 : 0).add(sd != sd ? 1 : 0).j();
+        });
+    }
+    else if (op == "MeanX" || op == "CenterX" || op == "CovX" || op == "VarX" || op == "SdX" || op == "CorX")
+    {
+      // unweighted moments of data offset by c = 2^e (last entry of k; 0: no offset): the two-pass
+      // definition is exact on such data when n is a power of two, and shift invariant
+      SKIP_UNLESS(isDouble());
+      const long eoff = k.back();
+      SKIP_UNLESS(eoff == 0 || (eoff >= 20 && eoff <= 40));
+      const bool unb = (op == "CovX" || op == "VarX" || op == "SdX") && k[0] != 0;
+      const bool two = op == "CovX" || op == "CorX";
+      SKIP_UNLESS(x.size() >= (op == "CorX" || unb ? 2u : 1u));
+      const bool p2 = (x.size() & (x.size() - 1)) == 0;
+      if (op == "MeanX" || op == "CenterX") { if (p2 && x.size() <= 64) FIT_UNLESS(128 * n * ax <= 1e9L); }
+      else if (op != "CorX" && p2 && x.size() <= 16) FIT_UNLESS(4096.0L * 4 * (ax + 1) * ((two ? ay : ax) + 1) * n <= 1e9L);
+      const double coff = eoff == 0 ? 0.0 : std::ldexp(1.0, static_cast<int>(eoff));
+      std::vector<double> dx(x.begin(), x.end()), dy(y.begin(), y.end());
+      for (auto& e : dx) e += coff;
+      for (auto& e : dy) e += coff;
+      if (op == "MeanX")
+        oc = run([&] {
+          double m = VT::template mean<double, double>(dx);
+          r = Arr().add(dyad(m - coff, 6)).add(m != m ? 1 : 0).j();
+        });
+      else if (op == "CenterX")
+        oc = run([&] {
+          Arr a;
+          for (double e : VT::template center<double, double>(dx)) a.add(dyad(e, 6));
+          r = a.j();
+        });
+      else if (op == "CovX")
+        oc = run([&] {
+          double cv = VT::template cov<double, double>(dx, dy, unb);
+          r = Arr().add(dyad(cv, 12)).add(cv != cv ? 1 : 0).j();
+        });
+      else if (op == "VarX")
+        oc = run([&] {
+          double va = VT::template var<double, double>(dx, unb);
+          r = Arr().add(dyad(va, 12)).add(va != va ? 1 : 0).add(va < 0 ? 1 : 0).j();
+        });
+      else if (op == "SdX")
+        oc = run([&] {
+          double sd = VT::template sd<double, double>(dx, unb);
+          r = Arr().add(dyad(sd, 6)).add(sd != sd ? 1 : 0).j();
+        });
+      else
+        oc = run([&] {
+          double co = VT::template cor<double, double>(dx, dy);
+          r = Arr().add(co != co ? 1 : 0).add(std::fabs(co) <= 1.0 + 64 * std::numeric_limits<double>::epsilon() ? 1 : 0).j();
         });
     }
     if (oc.o.empty())
@@ -526,6 +580,16 @@ template<class T> struct Runner
           call(scal[i], "a", "-", "-", {s});
           ensure("a", v);
         }
+      for (long eo : {0L, 30L, 40L})
+      {
+        call("MeanX", "a", "-", "-", {eo});
+        call("CenterX", "a", "-", "-", {eo});
+        for (long u = 0; u <= 1; ++u)
+        {
+          call("VarX", "a", "-", "-", {u, eo});
+          call("SdX", "a", "-", "-", {u, eo});
+        }
+      }
       for (const char* op : {"AddEqE", "SubEqE", "MulEqE", "DivEqE"})
         for (long i = 0; i < static_cast<long>(v.size()); ++i)
         {
@@ -557,14 +621,23 @@ template<class T> struct Runner
           for (const char* op : pure) call(op, "a", "b");
         for (const char* op : pureSet) call(op, "a", "b");
         if (!setlikeOnly)
+        {
+          for (long eo : {0L, 27L, 40L})
+          {
+            call("CovX", "a", "b", "-", {0, eo});
+            call("CovX", "a", "b", "-", {1, eo});
+            call("CorX", "a", "b", "-", {eo});
+          }
           for (long u = 0; u <= 1; ++u)
             for (long nzf = 0; nzf <= 1; ++nzf)
               for (long pr = 0; pr <= 1; ++pr)
               {
-                if (u == 0) call("MeanW", "a", "b", "-", {nzf, pr});
-                call("VarW", "a", "b", "-", {u, nzf, pr});
-                call("CovW", "a", "a", "b", {u, nzf, pr});
+                const long eo = ((u + nzf + pr) % 2) ? 33 : 0;
+                if (u == 0) call("MeanW", "a", "b", "-", {nzf, pr, 33 - eo});
+                call("VarW", "a", "b", "-", {u, nzf, pr, eo});
+                call("CovW", "a", "a", "b", {u, nzf, pr, 33 - eo});
               }
+        }
         if (!setlikeOnly)
           for (const char* op : mut)
           {
@@ -680,7 +753,21 @@ template<class T> struct Runner
           set(y, v);
         }
         else if (pick < 14) set(x, randomVector(rng));
-        else if (pick < 40) call(u1[rng.below(sizeof u1 / sizeof *u1)], x);
+        else if (pick < 40)
+        {
+          if (rng.chance(1, 4))
+          {
+            static const long offs[] = {0, 20, 27, 30, 33, 36, 40};
+            static const char* xo[] = {"MeanX", "CenterX", "VarX", "SdX", "CovX", "CorX"};
+            std::string op = xo[rng.below(6)];
+            long eo = offs[rng.below(7)];
+            if (op == "MeanX" || op == "CenterX") call(op, x, "-", "-", {eo});
+            else if (op == "VarX" || op == "SdX") call(op, x, "-", "-", {rng.range(0, 1), eo});
+            else if (op == "CovX") call(op, x, y, "-", {rng.range(0, 1), eo});
+            else call(op, x, y, "-", {eo});
+          }
+          else call(u1[rng.below(sizeof u1 / sizeof *u1)], x);
+        }
         else if (pick < 55)
         {
           const V& v = regs[x];
@@ -716,11 +803,12 @@ template<class T> struct Runner
             set(x, dxv);
             set(y, w);
             if (rng.coin()) set(z, dzv);
-            call("MeanW", x, y, "-", {rng.range(0, 1), rng.range(0, 1)});
+            static const long offs[] = {0, 0, 20, 27, 30, 35, 40};
+            call("MeanW", x, y, "-", {rng.range(0, 1), rng.range(0, 1), offs[rng.below(7)]});
             for (int rep2 = 0; rep2 < 2; ++rep2)
             {
-              call("VarW", x, y, "-", {rng.range(0, 1), rng.range(0, 1), rng.range(0, 1)});
-              call("CovW", x, z, y, {rng.range(0, 1), rng.range(0, 1), rng.range(0, 1)});
+              call("VarW", x, y, "-", {rng.range(0, 1), rng.range(0, 1), rng.range(0, 1), offs[rng.below(7)]});
+              call("CovW", x, z, y, {rng.range(0, 1), rng.range(0, 1), rng.range(0, 1), offs[rng.below(7)]});
             }
             continue;
           }
